@@ -22,7 +22,7 @@ ASSUMPTIONS = ['generic-group model of sx/algebra.py; SHA-256 uninterpreted; no 
 EXPLANATION = ('AMHL.setup / setup_for / check_setup / verify_lock_key / release are executed from the real source over the group-algebra stubs for '
                'a symbolic seed: hop i tweak point = (y_0 + ... + y_i)*G, every view validates, the final key opens the last lock, and release '
                'applied right to left yields at every hop the scalar whose point is that hop\'s lock; a key of another hop does not open it')
-MUST_REACH = ['setup_ok', 'cascade_ok', 'tools_ok']
+MUST_REACH = ['setup_ok', 'cascade_ok', 'tools_ok', 'tools_noseed_ok']
 
 
 def _setup(c):
@@ -162,6 +162,48 @@ def h_tools(c, pkg, n):
     c.reach('tools_ok')
 
 
+def h_tools_noseed(c, pkg, n):
+    """setup_amhl with the empty seed (the secrets then come from token_bytes): the returned key must still be the key of the
+    returned last hop, i.e. everything in the result stems from one and the same sample set"""
+    T_, F = pkg.tools, pkg.functions
+    A = pkg.AMHL.AMHL
+    _setup(c)
+    stubs.CONFIG.log2_max_bits = 48
+    with algebra.XorShortcut(pkg):
+        import nacl.signing as _ns
+        pubs = [bytes(_ns.SigningKey(bytes([i + 1]) * 32).verify_key) for i in range(n)]
+        for pk in pubs:
+            algebra.mark_point(pk)
+        res = T_.setup_amhl(b'', pubs, '00')
+        c.check('result_has_every_party_and_the_key', all(pk in res for pk in pubs) and 'key' in res)
+        c.check('final_key_opens_the_last_hop', A.verify_lock_key(res[pubs[n - 1]][2], res['key']))
+        # hop 0 is locked to the point of its own secret; hop i to the left hop's point plus the point of its partial secret
+        c.check('first_hop_point_is_point_of_its_secret', A.verify_lock_key(res[pubs[0]][2], res[pubs[0]][3]))
+        for i in range(1, n):
+            c.check('hop_point_is_left_point_plus_partial_secret',
+                    A.check_setup((res[pubs[i - 1]][2], res[pubs[i]][2], res[pubs[i]][3]), i, n), hop=i)
+    c.reach('tools_noseed_ok')
+
+
+def r_tools_noseed(inputs, params, obligation):
+    import tapescript.tools as RT
+    import tapescript.functions as RF
+    from tapescript.AMHL import AMHL as A
+    n = params['n']
+    pubs = [RF.derive_point_from_scalar(RF.derive_key_from_seed(bytes([i + 1]) * 32)) for i in range(n)]
+    bad = []
+    for _ in range(3):
+        res = RT.setup_amhl(b'', pubs, '00')
+        if not A.verify_lock_key(res[pubs[n - 1]][2], res['key']):
+            bad.append('final_key')
+        if not A.verify_lock_key(res[pubs[0]][2], res[pubs[0]][3]):
+            bad.append(('first_hop', 0))
+        for i in range(1, n):
+            if not A.check_setup((res[pubs[i - 1]][2], res[pubs[i]][2], res[pubs[i]][3]), i, n):
+                bad.append(('hop_relation', i))
+    return {'reproduced': bool(bad), 'bad': bad[:4]}
+
+
 # ------------------------------------------------------------------------------ concrete replay (real libsodium)
 def r_amhl(inputs, params, obligation):
     import tapescript
@@ -236,4 +278,6 @@ HARNESSES = [
                 signature=_sig),
     HarnessSpec('tools', h_tools, lambda t: [{'n': n} for n in ((2,) if t == 'quick' else (2, 3))], replay=r_amhl, signature=_sig,
                 fallback=_fallback),
+    HarnessSpec('tools_noseed', h_tools_noseed, lambda t: [{'n': n} for n in ((2, 3) if t == 'quick' else (2, 3, 4))], replay=r_tools_noseed,
+                signature=_sig, fallback=lambda params, rng: {}),
 ]
